@@ -397,7 +397,8 @@ def contract_ragged_remove_empty(n, VL, B, W, n_out, Le, Lv, ecell, vcell, rho):
     """caller-visible contract of RunLengthRaggedArray.remove_empty_intervals on boundaries B(r, 0..VL(r)) and values W(r, 0..VL(r)-1), row by row:
     rows stay rows, one boundary more than values per row, the first boundary of a row is kept, and every run with different boundaries keeps its
     value, the VALUE of its start and its end, as run rho(r, c) of the new row.  Proved in RlRaggedRemoveEmpty (contract.*)."""
-    G = lambda r: z3.Implies(z3.And(0 <= r, r < n), z3.And(Le(r) == Lv(r) + 1, Lv(r) >= 0, ecell(r, z3.IntVal(0)) == B(r, z3.IntVal(0))))
+    G = lambda r: z3.Implies(z3.And(0 <= r, r < n), z3.And(Le(r) == Lv(r) + 1, Lv(r) >= 0, ecell(r, z3.IntVal(0)) == B(r, z3.IntVal(0)),
+                                                       ecell(r, Lv(r)) == B(r, VL(r))))
     A = lambda r, c: z3.Implies(z3.And(0 <= r, r < n, 0 <= c, c < VL(r), B(r, c) != B(r, c + 1)), z3.And(
         0 <= rho(r, c), rho(r, c) < Lv(r), vcell(r, rho(r, c)) == W(r, c), ecell(r, rho(r, c)) == B(r, c), ecell(r, rho(r, c) + 1) == B(r, c + 1)))
     return [n_out == n], [("ragged_remove_empty.rows", G, 1), ("ragged_remove_empty.kept-runs", A, 2)]
@@ -752,13 +753,35 @@ class RlRaggedRemoveEmpty(Family):
         ctx.prove_then_assume("post.a non-empty run keeps its start: the previous kept boundary has the value B(r, c)",
                               z3.And(ED.get(e2._shape.starts.get(r) + t) == B(r, pc), B(r, pc) == B(r, c)),
                               pool=[r, c, pc, prevq, IS(r), rk2(q + 1), rk2(q + 1) - 1, irow(prevq)])
+        # the last boundary VALUE of every row is kept: the boundaries after the last kept one are all equal to it
+        r5 = z3.Int("r5")
+        ctx.skolem(z3.And(0 <= r5, r5 < n))
+        endq = IS(r5 + 1)
+        lastq = pos2(rk2(endq) - 1)
+        lc = lastq - IS(r5)
+        ch5 = w(r5, lc, VL(r5))
+        ctx.assume_forall("constant-or-change along row r5 (same induction as above)", lambda x, y: z3.Implies(z3.And(0 <= x, x <= y, y <= VL(r5)), P(r5, x, y, w(r5, x, y))), arity=2)
+        ctx.prove_then_assume("lemma: the first boundary of row r5 is kept and the row keeps one boundary more than values",
+                              z3.And(M2(IS(r5)), e2._shape.starts.get(r5) == rk2(IS(r5)), e2._shape.lengths.get(r5) == rk2(endq) - rk2(IS(r5)),
+                                     v2._shape.lengths.get(r5) == e2._shape.lengths.get(r5) - 1),
+                              pool=[r5, r5 + 1, z3.IntVal(0), VL(r5), IS(r5), endq, VS(r5), VS(r5 + 1), n], without=["lemmaF", "constant-or-change"])
+        ctx.prove_then_assume("lemma: the last kept boundary of row r5 lies in row r5",
+                              z3.And(IS(r5) <= lastq, lastq < endq, M2(lastq), rk2(lastq) == rk2(endq) - 1, rk2(lastq + 1) == rk2(endq), irow(lastq) == r5),
+                              pool=[r5, r5 + 1, IS(r5), IS(r5) + 1, endq, endq - 1, rk2(endq) - 1, rk2(endq), rk2(IS(r5)), lastq, lastq + 1, irow(lastq), irow(lastq) + 1, nz2.cnt, n, IS(n),
+                                    irow(IS(r5)), irow(IS(r5)) + 1, VL(r5), VS(r5), VS(r5 + 1)],
+                              without=["masks cell by cell", "lemmaF", "constant-or-change", "lemmaR"])
+        ctx.prove_then_assume("lemma: no boundary after the last kept one is kept, so the runs up to the end of the row are empty",
+                              z3.Not(z3.And(lc <= ch5, ch5 < VL(r5), B(r5, ch5) != B(r5, ch5 + 1))),
+                              pool=[r5, ch5, ch5 + 1, IS(r5) + ch5 + 1, IS(r5) + ch5 + 2, lastq, lastq + 1, endq, endq - 1, lc, VL(r5)])
+        ctx.prove_then_assume("post.the last boundary value of every row is kept", ED.get(e2._shape.starts.get(r5) + v2._shape.lengths.get(r5)) == B(r5, VL(r5)),
+                              pool=[r5, lc, lastq, IS(r5), rk2(endq), rk2(endq) - 1, irow(lastq), VL(r5)])
         # the contract as callers use it (same formulas): cells of the results addressed through the new geometries
         ecell = lambda r_, t_: ED.get(e2._shape.starts.get(r_) + t_)
         vcell = lambda r_, t_: VD.get(v2._shape.starts.get(r_) + t_)
         rho_ = lambda r_, c_: rk1(VS(r_) + c_) - rk1(VS(r_))
         ground, schemas = contract_ragged_remove_empty(n, VL, B, W, I(e2._shape.n_rows), e2._shape.lengths.get, v2._shape.lengths.get, ecell, vcell, rho_)
         ctx.prove("contract.ground facts", z3.And(*ground), live=[r, c])
-        ctx.prove("contract." + schemas[0][0], schemas[0][1](r), pool=[r, r + 1, VL(r), IS(r), VS(r), VS(r + 1), n], live=[c],
+        ctx.prove("contract." + schemas[0][0], schemas[0][1](r5), pool=[r5, r5 + 1, VL(r5), IS(r5), VS(r5), VS(r5 + 1), n, irow(IS(r5)), irow(IS(r5)) + 1, rk2(IS(r5))],
                   without=["masks cell by cell", "lemmaR", "lemmaF", "constant-or-change"])
         ctx.prove("contract." + schemas[1][0], schemas[1][1](r, c), pool=[r, c, c + 1, p, VS(r), IS(r)],
                   without=["masks cell by cell", "lemmaR", "lemmaF", "lemmaT", "constant-or-change"])
@@ -902,8 +925,7 @@ class Rl2dStepSubset(Family):
     """IndexableMixin._step_subset(step, indices, values) on the rows of a ragged run-length array (|step| = s symbolic): in every row, position q of the
     result holds the value at source position q*s (step > 0) resp. len(row)-1-q*s (step < 0): it lies in an output run with that value.
     q*s is MUL(q), // s is DIV (factored floor division); remove_empty_intervals enters through its proved contract; operands are SpecRagged.
-    Not covered: the statement that the last boundary of each result row is ceil(len(row)/s) (the 1-D family proves it; here it would need one more
-    induction in the callee's contract)."""
+    The last boundary of each result row is ceil(len(row)/s) (the smallest Q with Q*s >= len(row))."""
     name = "IndexableMixin._step_subset"
     qualname = "npstructures.runlengtharray:IndexableMixin._step_subset"
     serves = ["C17"]
@@ -943,6 +965,15 @@ class Rl2dStepSubset(Family):
         re = calls["remove_empty"]
         Iv, Wp, rho, e2, v2, Lv = re["B"], re["W"], re["rho"], re["e2"].fn, re["v2"].fn, re["Lv"]
         ctx.prove("post.the result is remove_empty_intervals' output", z3.BoolVal(e_out is re["e2"] and v_out is re["v2"]))
+        rl = z3.Int("rl")
+        ctx.skolem(z3.And(0 <= rl, rl < n))
+        lenr = B(rl, VL(rl))
+        last = Iv(rl, VL(rl))
+        lp = [rl, VL(rl), VL(rl) - 1, z3.IntVal(0), last, last + 1]
+        if z3.is_app(last) and last.num_args() == 1 and last.decl().eq(DIV):
+            lp += [last.arg(0)]
+        ctx.prove("post.row length: the last boundary of result row r is ceil(len(row r) / s)",
+                  z3.And(e2(rl, Lv(rl)) == last, MUL(last) >= lenr, z3.Implies(last > 0, MUL(last - 1) < lenr)), pool=lp + [last - 1])
         r, q, u = z3.Int("r"), z3.Int("q"), z3.Int("u")
         length = B(r, VL(r))
         srcpos = MUL(q) if kind == "forward" else length - 1 - MUL(q)
